@@ -236,10 +236,86 @@ def _solve_trace(self, a, b):
 NpProxy._solve_trace = _solve_trace
 
 
+def _external_original(name):
+    """the library object a well-known external name stands for (used when a module imports it under another name)"""
+    try:
+        import scipy.linalg as _sl
+        import scipy.interpolate as _si
+        import scipy.spatial.transform as _st
+        from scipy._lib._util import check_random_state as _crs
+        table = dict(cholesky=_sl.cholesky, cho_solve=_sl.cho_solve, solve_triangular=_sl.solve_triangular, expm=_sl.expm,
+                     CubicSpline=_si.CubicSpline, CubicHermiteSpline=_si.CubicHermiteSpline, interp1d=_si.interp1d,
+                     Rotation=_st.Rotation, Slerp=_st.Slerp, RotationSpline=_st.RotationSpline, check_random_state=_crs,
+                     np=_np, numpy=_np)
+        try:
+            import pandas as _pd
+            table["pd"] = _pd
+        except Exception:
+            pass
+        return table.get(name)
+    except Exception:
+        return None
+
+
+def _pyins_original(name):
+    """the pyins object a name usually stands for: a submodule (`kalman`), or a function / class DEFINED in a pyins module"""
+    import sys
+    mod = sys.modules.get("pyins." + name)
+    if mod is not None:
+        return mod
+    for mname, m in list(sys.modules.items()):
+        if m is None or not mname.startswith("pyins.") or ".tests" in mname:
+            continue
+        v = vars(m).get(name)
+        if v is not None and getattr(v, "__module__", None) == mname:
+            return v
+    return None
+
+
+def _aliases(orig):
+    """(module, name) pairs of pyins modules whose global `name` IS `orig` (functions, classes and modules only)"""
+    import sys
+    import types as _types
+    if orig is None or not (callable(orig) or isinstance(orig, _types.ModuleType)):
+        return []
+    out = []
+    for mname, mod in list(sys.modules.items()):
+        if mod is None or not (mname == "pyins" or mname.startswith("pyins.")) or ".tests" in mname:
+            continue
+        for k, v in list(vars(mod).items()):
+            if v is orig and not k.startswith("__"):
+                out.append((mod, k))
+    return out
+
+
+def alias_update(ns, home, mapping):
+    """dict version: `ns` is a copy of module `home`'s globals used as the namespace of a cut function; every entry of `ns`
+    that IS the object `home` (or a well-known library) binds to a name of `mapping` is replaced by the stub -- whatever it
+    is called in the code (`from . import kalman as kf`, `import numpy`)"""
+    home = home if isinstance(home, dict) else vars(home)
+    for name, stub in mapping.items():
+        orig = home.get(name)
+        if orig is None:
+            orig = _external_original(name)
+        if orig is None:
+            orig = _pyins_original(name)
+        hit = False
+        if orig is not None:
+            for k in list(ns):
+                if ns[k] is orig and not k.startswith("__"):
+                    ns[k] = stub
+                    hit = True
+        ns[name] = stub
+    return ns
+
+
 @contextlib.contextmanager
 def patched(*patches):
-    """patched((module_or_dict, {name: value, ...}), ...) -- rebind module
-    globals (or object attributes) for the duration of the block."""
+    """patched((module_or_dict, {name: value, ...}), ...) -- rebind module globals (or object attributes) for the duration of
+    the block.  For a module target the object that `name` is bound to (or, when the module does not have that name, the
+    well-known library object of that name) is also rebound wherever a pyins module holds it under ANOTHER name, so the
+    patch survives `from .util import to_180_range`, `from scipy.linalg import cholesky as chol`, `import numpy`."""
+    import types as _types
     saved = []
     missing = object()
     try:
@@ -248,9 +324,24 @@ def patched(*patches):
                 if isinstance(target, dict):
                     saved.append((target, k, target.get(k, missing), True))
                     target[k] = v
-                else:
-                    saved.append((target, k, target.__dict__.get(k, missing) if hasattr(target, "__dict__") else getattr(target, k, missing), False))
-                    setattr(target, k, v)
+                    continue
+                have = target.__dict__.get(k, missing) if hasattr(target, "__dict__") else getattr(target, k, missing)
+                saved.append((target, k, have, False))
+                setattr(target, k, v)
+                if isinstance(target, _types.ModuleType) and (getattr(target, "__name__", "") or "").startswith("pyins"):
+                    orig = have if have is not missing else (_external_original(k) if _external_original(k) is not None else _pyins_original(k))
+                    if orig is not missing and orig is not None and orig is not v:
+                        for mod, alias in _aliases(orig):
+                            if mod is target and alias == k:
+                                continue
+                            # the name is absent from the target (imported under another name there): only the target's aliases
+                            if have is missing and mod is not target:
+                                continue
+                            if getattr(orig, "__module__", None) == mod.__name__ and not isinstance(orig, _types.ModuleType):
+                                if mod is not target:
+                                    continue
+                            saved.append((mod, alias, orig, False))
+                            setattr(mod, alias, v)
         yield
     finally:
         for target, k, old, isdict in reversed(saved):
